@@ -18,8 +18,9 @@ for curl / ureq on every reply whose Content-Type their engine can show (`C09_tr
 visible ASCII for ureq 2.x); on the remaining replies they return an ERROR VALUE, never an altered success
 (`C09_unreadable_is_error`), so the full clause is false for them (`C09_ureq_not_transparent`,
 `C09_curl_not_transparent`: residual of F7, an engine API limit).
-The full fault clause `FaultsSurface` is false for ureq with either version (finding F6, a ureq 2.x engine behaviour):
-see `C09_faults_partial`, `C09_ureq_not_faults_surface`.
+The full fault clause `FaultsSurface` is false for ureq with either version (finding F6, a ureq 2.x engine behaviour) and for
+curl (finding F9, libcurl on an overflowing Content-Length): see `C09_faults_partial`, `C09_ureq_not_faults_surface`,
+`C09_curl_not_faults_surface`.
 -/
 namespace C09
 open Adapter
@@ -227,7 +228,7 @@ theorem C09_same_class_partial {κ : Type} (classify : Outcome → κ) (a : Id) 
 error value, never a success (in particular never a silently shortened one). -/
 def FaultsSurface (v : Version) (a : Id) : Prop := ∀ f : Fault, ∃ e, adapter v a (.inr f) = .error e
 
-theorem lib_fault (a : Id) (f : Fault) (hx : ¬ (a = .ureq ∧ f.isTruncatedChunked = true)) :
+theorem lib_fault (a : Id) (f : Fault) (hx : Fault.engineBlind a f = false) :
     lib a (.inr f) = .transportErr ∨ ∃ h, lib a (.inr f) = .ok h none ∨ lib a (.inr f) = .statusErr h none := by
   cases f with
   | truncatedBody h =>
@@ -243,16 +244,23 @@ theorem lib_fault (a : Id) (f : Fault) (hx : ¬ (a = .ureq ∧ f.isTruncatedChun
     · exact .inr ⟨h, .inl rfl⟩
     · exact .inr ⟨h, .inl rfl⟩
     · exact .inl rfl
-    · exact absurd ⟨rfl, rfl⟩ hx
+    · simp [Fault.engineBlind, Fault.isTruncatedChunked] at hx
+  | overflowLength h rec =>
+    cases a
+    · exact .inl rfl
+    · exact .inl rfl
+    · simp [Fault.engineBlind, Fault.isOverflowLength, Fault.isTruncatedChunked] at hx
+    · by_cases hs : 400 ≤ h.status
+      · exact .inr ⟨h, .inr (by simp [lib, hs])⟩
+      · exact .inr ⟨h, .inl (by simp [lib, hs])⟩
   | refused => exact .inl rfl
   | closedBeforeReply => exact .inl rfl
   | garbageStatusLine => exact .inl rfl
 
 /-- Faults surface as an error value — never a success, in particular never a silently shortened
-one, and the glue has no panicking path — through every adapter and both glue versions, EXCLUDING
-(ureq, chunked reply cut inside a chunk): there the ureq 2.x engine itself reports a normal end of
-body (finding F6, see `C09_ureq_truncated_chunked_shortened`). -/
-theorem C09_faults_partial (v : Version) (a : Id) (f : Fault) (hx : ¬ (a = .ureq ∧ f.isTruncatedChunked = true)) :
+one, and the glue has no panicking path — through every adapter and both glue versions, EXCLUDING the two
+(adapter, fault) pairs where the engine itself reports a normal end of body (`Fault.engineBlind`: findings F6, F9). -/
+theorem C09_faults_partial (v : Version) (a : Id) (f : Fault) (hx : Fault.engineBlind a f = false) :
     ∃ e, adapter v a (.inr f) = .error e := by
   unfold adapter
   rcases lib_fault a f hx with h | ⟨h, h1 | h1⟩
@@ -260,9 +268,9 @@ theorem C09_faults_partial (v : Version) (a : Id) (f : Fault) (hx : ¬ (a = .ure
   · rw [h1]; exact (glue_error v a h).2.1
   · rw [h1]; exact (glue_error v a h).2.2
 
-/-- Full strength for the three adapters other than ureq. -/
-theorem C09_faults (v : Version) (a : Id) (ha : a ≠ .ureq) : FaultsSurface v a :=
-  fun f => C09_faults_partial v a f (fun h => ha h.1)
+/-- Full strength for the two reqwest adapters. -/
+theorem C09_faults (v : Version) (a : Id) (ha : a ≠ .ureq) (hc : a ≠ .curl) : FaultsSurface v a :=
+  fun f => C09_faults_partial v a f (by cases a <;> simp_all [Fault.engineBlind])
 
 /-- F6, general form: through the ureq adapter a chunked 2xx/3xx reply cut inside a chunk comes
 back as a SUCCESS carrying only the bytes received so far (both glue versions: the glue cannot
@@ -284,19 +292,34 @@ theorem C09_ureq_not_faults_surface (v : Version) : ¬ FaultsSurface v .ureq := 
   rw [f6Witness, C09_ureq_truncated_chunked_shortened v _ _ (by decide) (by decide) ⟨rfl, rfl⟩ (by decide)] at he
   cases he
 
+/-- F9, general form: through the curl adapter a reply announced with an overflowing Content-Length and cut short
+comes back as a SUCCESS carrying the bytes received (libcurl reads until the close) -/
+theorem C09_curl_overflow_length_shortened (v : Version) (h : Head) (rec : Bytes)
+    (hs : statusOk h.status = true) (hc : ctOk h.contentType = true) (hp : Head.plain h) :
+    adapter v .curl (.inr (.overflowLength h rec)) = .ok ⟨h.status, h.contentType, rec⟩ := by
+  simp only [adapter, lib]
+  exact glue_ok v .curl h rec hs hc hp
+
+/-- the F9 witness -/
+def f9Witness : Fault :=
+  .overflowLength { status := 200, contentType := some (Form.lit "application/json") } (Form.lit "{\"access_token\":")
+
+theorem C09_curl_not_faults_surface (v : Version) : ¬ FaultsSurface v .curl := by
+  intro h
+  obtain ⟨e, he⟩ := h f9Witness
+  rw [f9Witness, C09_curl_overflow_length_shortened v _ _ (by decide) (by decide) ⟨rfl, rfl⟩] at he
+  cases he
+
 /-- No success is ever shorter than (or otherwise different from) what the server sent: if a CURRENT adapter returns
-`Ok`, the input was a complete reply and the result is exactly that reply — again excluding (ureq, chunked reply cut
-inside a chunk). -/
+`Ok`, the input was a complete reply and the result is exactly that reply — again excluding the engine-blind pairs. -/
 theorem C09_success_exact_partial (a : Id) (x : WireReply ⊕ Fault) (resp : Response)
     (h : adapter .fixed a x = .ok resp) :
-    (∃ r, x = .inl r ∧ resp = respOf r) ∨ (a = .ureq ∧ ∃ hd rec, x = .inr (.truncatedChunked hd rec)) := by
+    (∃ r, x = .inl r ∧ resp = respOf r) ∨ (∃ f, x = .inr f ∧ Fault.engineBlind a f = true) := by
   cases x with
   | inr f =>
-    by_cases hx : a = .ureq ∧ f.isTruncatedChunked = true
-    · right
-      refine ⟨hx.1, ?_⟩
-      cases f <;> simp_all [Fault.isTruncatedChunked]
-    · obtain ⟨e, he⟩ := C09_faults_partial .fixed a f hx; rw [he] at h; cases h
+    by_cases hx : Fault.engineBlind a f = true
+    · exact .inr ⟨f, rfl, hx⟩
+    · obtain ⟨e, he⟩ := C09_faults_partial .fixed a f (by simpa using hx); rw [he] at h; cases h
   | inl r =>
     left
     refine ⟨r, rfl, ?_⟩
@@ -402,6 +425,8 @@ end C09
 #print axioms C09.C09_faults
 #print axioms C09.C09_ureq_truncated_chunked_shortened
 #print axioms C09.C09_ureq_not_faults_surface
+#print axioms C09.C09_curl_overflow_length_shortened
+#print axioms C09.C09_curl_not_faults_surface
 #print axioms C09.C09_success_exact_partial
 #print axioms C09.C09_request
 #print axioms C09.C09_request_of_build
